@@ -15,8 +15,8 @@ C2S: seeded browser-like sessions with real 16-byte secrets, version switches, s
      cookies, multi-character mutations; TLC validates every event against Trace_Xsrf.
 
 Binding demonstrated during development (notes/websec.md): `if not token` dropped (empty secret
-accepted), PUT added to the unchecked methods, and the mask applied with the wrong argument
-order in xsrf_token were each reported as VIOLATION.
+accepted), PUT added to the unchecked methods, and the mask applied reversed in xsrf_token were
+each reported as VIOLATION.
 """
 import time
 
@@ -41,7 +41,7 @@ def run(ctx):
     # the scenario run is itself a full TLC model-checking run (all invariants of the cfg) with -dump
     subs = ctx.pick({"Ts": "{1234567}"}, {"ArbTokLen": 4, "Masks": "{1, 2, 3}", "EditBytes": "{48, 102, 103, 124, 50, 70, 57}"})
     r, states = W.tlc_states(ctx, "Xsrf", W.cfg_with(ctx, "Gen_Xsrf.cfg", subs), count=True, label="Gen_Xsrf.cfg",
-                             coverage=True, required_actions=["Post", "IssueStep"])
+                             coverage=True, required_actions=["Post", "IssueStep"], timeout=ctx.pick(900, 1500))
     scen = [(st, []) for st in states if st["sc"]["mode"] in ("post", "issue")]
     if not scen:
         raise framework.Machinery("no scenarios generated")
